@@ -118,7 +118,7 @@ func runSlow(h *history, dir string, hintEntered chan struct{}) (res *runResult)
 	tracks := mkTracks(h)
 	m := &gohlslib.Muxer{
 		Tracks:             tracks,
-		Variant:            variantOf(h.Variant),
+		Variant:            variantOf(h),
 		SegmentCount:       h.SegCount,
 		SegmentMinDuration: time.Duration(h.SegMin),
 		PartMinDuration:    time.Duration(h.PartMin),
